@@ -1,0 +1,219 @@
+//go:build verif
+
+package decoder
+
+// Read-only views of internal state for the verification harness in /verif.
+// This file is only compiled with -tags verif; it adds code and changes none.
+
+// VerifArg mirrors arg.
+type VerifArg struct {
+	Val    []byte
+	Subset [][]byte
+	Static bool
+}
+
+// VerifMod mirrors mod (the function value is represented by its registered name).
+type VerifMod struct {
+	ID  []byte
+	Arg []VerifArg
+}
+
+// VerifNode mirrors node. Getter/Callback tell whether the function value is set
+// (its name is kept in Src by the parser).
+type VerifNode struct {
+	Typ                       int
+	Dst, Src, Ins             []byte
+	Subset                    [][]byte
+	Getter, Callback          bool
+	Static                    bool
+	Mod                       []VerifMod
+	Arg                       []VerifArg
+	Child                     []VerifNode
+	LoopKey, LoopVal, LoopSrc []byte
+	LoopCnt, LoopCntInit      []byte
+	LoopCntStatic             bool
+	LoopCntOp, LoopCondOp     int
+	LoopLim                   []byte
+	LoopLimStatic             bool
+	LoopBrkD                  int
+	CondL, CondOKL, CondR     []byte
+	CondOKR                   []byte
+	CondStaticL, CondStaticR  bool
+	CondOp                    int
+	CondHlp                   []byte
+	CondHlpArg                []VerifArg
+	CondIns                   []byte
+	CondLC                    int
+	SwitchArg                 []byte
+	CaseL, CaseR              []byte
+	CaseStaticL, CaseStaticR  bool
+	CaseOp                    int
+	CaseHlp                   []byte
+	CaseHlpArg                []VerifArg
+}
+
+func verifArgs(a []*arg) []VerifArg {
+	if len(a) == 0 {
+		return nil
+	}
+	r := make([]VerifArg, 0, len(a))
+	for _, x := range a {
+		r = append(r, VerifArg{Val: x.val, Subset: x.subset, Static: x.static})
+	}
+	return r
+}
+
+func verifNodes(ns []node) []VerifNode {
+	if len(ns) == 0 {
+		return nil
+	}
+	r := make([]VerifNode, 0, len(ns))
+	for i := range ns {
+		n := &ns[i]
+		v := VerifNode{
+			Typ: int(n.typ), Dst: n.dst, Src: n.src, Ins: n.ins, Subset: n.subset,
+			Getter: n.getter != nil, Callback: n.callback != nil, Static: n.static,
+			Arg: verifArgs(n.arg), Child: verifNodes(n.child),
+			LoopKey: n.loopKey, LoopVal: n.loopVal, LoopSrc: n.loopSrc,
+			LoopCnt: n.loopCnt, LoopCntInit: n.loopCntInit, LoopCntStatic: n.loopCntStatic,
+			LoopCntOp: int(n.loopCntOp), LoopCondOp: int(n.loopCondOp),
+			LoopLim: n.loopLim, LoopLimStatic: n.loopLimStatic, LoopBrkD: n.loopBrkD,
+			CondL: n.condL, CondOKL: n.condOKL, CondR: n.condR, CondOKR: n.condOKR,
+			CondStaticL: n.condStaticL, CondStaticR: n.condStaticR, CondOp: int(n.condOp),
+			CondHlp: n.condHlp, CondHlpArg: verifArgs(n.condHlpArg), CondIns: n.condIns,
+			CondLC: int(n.condLC), SwitchArg: n.switchArg,
+			CaseL: n.caseL, CaseR: n.caseR, CaseStaticL: n.caseStaticL, CaseStaticR: n.caseStaticR,
+			CaseOp: int(n.caseOp), CaseHlp: n.caseHlp, CaseHlpArg: verifArgs(n.caseHlpArg),
+		}
+		for j := range n.mod {
+			v.Mod = append(v.Mod, VerifMod{ID: n.mod[j].id, Arg: verifArgs(n.mod[j].arg)})
+		}
+		r = append(r, v)
+	}
+	return r
+}
+
+// VerifDumpTree returns a deep, field-by-field view of the tree's nodes.
+func VerifDumpTree(t *Tree) []VerifNode {
+	if t == nil {
+		return nil
+	}
+	return verifNodes(t.nodes)
+}
+
+// VerifTreeMeta returns the checksum and the recorded text of the tree.
+func VerifTreeMeta(t *Tree) (hsum uint64, src []byte, hasSrc bool) {
+	if t == nil {
+		return 0, nil, false
+	}
+	return t.hsum, t.src, t.src != nil
+}
+
+// VerifResetRegistry replaces the decoder registry with an empty one, so that
+// registry histories can be replayed from scratch inside one process.
+func VerifResetRegistry() {
+	decDB = initDB()
+}
+
+// VerifDBSnapshot describes the registry: the two identifier indexes, the hash
+// index and, per slot, the id, key and tree of the decoder stored there.
+type VerifDBSnapshot struct {
+	IdxID   map[int]int
+	IdxKey  map[string]int
+	IdxHash map[uint64]int
+	IDs     []int
+	Keys    []string
+	Trees   []*Tree
+}
+
+// VerifDB takes a snapshot of the registry under its read lock.
+func VerifDB() VerifDBSnapshot {
+	decDB.mux.RLock()
+	defer decDB.mux.RUnlock()
+	s := VerifDBSnapshot{IdxID: map[int]int{}, IdxKey: map[string]int{}, IdxHash: map[uint64]int{}}
+	for k, v := range decDB.idxID {
+		s.IdxID[k] = v
+	}
+	for k, v := range decDB.idxKey {
+		s.IdxKey[k] = v
+	}
+	for k, v := range decDB.idxHash {
+		s.IdxHash[k] = v
+	}
+	for _, d := range decDB.buf {
+		s.IDs = append(s.IDs, d.ID)
+		s.Keys = append(s.Keys, d.Key)
+		s.Trees = append(s.Trees, d.tree)
+	}
+	return s
+}
+
+// VerifCtxSnapshot describes the parts of a context that are not reachable
+// through its exported API.
+type VerifCtxSnapshot struct {
+	Ln, LenVars          int
+	Keys                 []string
+	ChQB                 bool
+	LenAccB, CapAccB     int
+	LenBuf, CapBuf       int
+	LenBB, LenBufBB      int
+	CapBufBB             int
+	SlotLen, SlotCap     []int
+	LenBufS, CapBufS     int
+	LenBufA, CapBufA     int
+	LenBufLC, CapBufLC   int
+	BufI                 int64
+	BufI_                int
+	BufU                 uint64
+	BufF                 float64
+	BufBl                bool
+	BufXNil              bool
+	BrkD                 int
+	Ipvl, LenIpv         int
+	ErrNil               bool
+	RLStat               []uint
+	RLBrk                []bool
+	RLKeyCap             []int
+	BufAccLen, BufAccCap int
+}
+
+// VerifCtx takes a snapshot of ctx.
+func VerifCtx(ctx *Ctx) VerifCtxSnapshot {
+	s := VerifCtxSnapshot{
+		Ln: ctx.ln, LenVars: len(ctx.vars), ChQB: ctx.chQB,
+		LenAccB: len(ctx.accB), CapAccB: cap(ctx.accB),
+		LenBuf: len(ctx.buf), CapBuf: cap(ctx.buf),
+		LenBB: ctx.lenBB, LenBufBB: len(ctx.bufBB), CapBufBB: cap(ctx.bufBB),
+		LenBufS: len(ctx.bufS), CapBufS: cap(ctx.bufS),
+		LenBufA: len(ctx.bufA), CapBufA: cap(ctx.bufA),
+		LenBufLC: len(ctx.bufLC), CapBufLC: cap(ctx.bufLC),
+		BufI: ctx.bufI, BufI_: ctx.bufI_, BufU: ctx.bufU, BufF: ctx.bufF, BufBl: ctx.bufBl,
+		BufXNil: ctx.bufX == nil, BrkD: ctx.brkD,
+		Ipvl: ctx.ipvl, LenIpv: len(ctx.ipv), ErrNil: ctx.Err == nil,
+		BufAccLen: ctx.BufAcc.Len(), BufAccCap: ctx.BufAcc.Cap(),
+	}
+	for i := 0; i < ctx.ln; i++ {
+		s.Keys = append(s.Keys, ctx.vars[i].key)
+	}
+	for i := range ctx.bufBB {
+		s.SlotLen = append(s.SlotLen, len(ctx.bufBB[i]))
+		s.SlotCap = append(s.SlotCap, cap(ctx.bufBB[i]))
+	}
+	for rl := ctx.rl; rl != nil; rl = rl.next {
+		s.RLStat = append(s.RLStat, rl.stat)
+		s.RLBrk = append(s.RLBrk, rl.brk)
+		s.RLKeyCap = append(s.RLKeyCap, cap(rl.kbuf))
+	}
+	return s
+}
+
+// VerifDirtyScratch overwrites the scratch cells a decode is supposed to write
+// before it reads (used to check that results do not depend on them).
+func VerifDirtyScratch(ctx *Ctx, x any, bl bool, i int64, u uint64, f float64) {
+	ctx.bufX = x
+	ctx.bufBl = bl
+	ctx.bufI = i
+	ctx.bufI_ = int(i)
+	ctx.bufU = u
+	ctx.bufF = f
+}
